@@ -2,10 +2,14 @@ package webtransport
 
 import (
 	"encoding/binary"
+	"fmt"
 	"io"
+	"math"
 
 	"github.com/karagenc/socket.io-go/engine.io/parser"
 )
+
+var errInvalidFrameLength = fmt.Errorf("webtransport: invalid frame length")
 
 type clientOpenPacketData struct {
 	SID string `json:"sid"`
@@ -85,9 +89,17 @@ func nextPacket(r io.Reader) (*parser.Packet, error) {
 			if err != nil {
 				return nil, err
 			}
-			expectedLen = int(binary.BigEndian.Uint32(header[:]))
+			n := binary.BigEndian.Uint64(header[:])
+			if n > math.MaxInt {
+				return nil, errInvalidFrameLength
+			}
+			expectedLen = int(n)
 			state = ReadPayload
 		case ReadPayload:
+			// The length was declared by the peer: refuse it before anything is allocated for it.
+			if lr, ok := r.(*limitedReader); ok && lr.exceeds(int64(expectedLen)) {
+				return nil, ErrLimitReached
+			}
 			return parser.DecodeWithLen(r, isBinary, expectedLen)
 		}
 	}
